@@ -221,11 +221,51 @@ def oracle(impl, o):
                 variants.append(lambda: optree.treespec_structseq(coll, **ckw))
             elif spec.kind == optree.PyTreeKind.CUSTOM and hasattr(tree, 'children'):
                 coll = t(tree.md, children, 'ok')
+            # the constructors normalise their input: any iterable / mapping type holding the same children in the
+            # same order builds the same node (the node kind comes from the constructor, not from the argument)
+            if t in (tuple, list, deque):
+                ctor = {tuple: optree.treespec_tuple, list: optree.treespec_list,
+                      deque: lambda it, **k: optree.treespec_deque(it, maxlen=tree.maxlen, **k)}[t]
+                class _TupleSub(tuple):
+                    pass
+
+                class _ListSub(list):
+                    pass
+                import collections as _c
+                _NT = _c.namedtuple('_NT', [f'f{i}' for i in range(len(children))])
+                for name, arg in (('tuple subclass', lambda: _TupleSub(children)), ('list subclass', lambda: _ListSub(children)),
+                                  ('namedtuple', lambda: _NT(*children)),
+                                  ('list', lambda: list(children)), ('tuple', lambda: tuple(children)),
+                                  ('generator', lambda: (c for c in children)), ('deque', lambda: deque(children)),
+                                  ('dict keys view', lambda: {c: None for c in children}.keys() if len({id(c) for c in children}) == len(children) and len(set(children)) == len(children) else list(children))):
+                    variants.append(lambda arg=arg: ctor(arg(), **ckw))
+            elif t in (dict, OrderedDict, defaultdict):
+                pairs = [(k, dict(zip(entries, children))[k]) for k in (tree if t is not OrderedDict else entries)]
+
+                class _DictSub(dict):
+                    pass
+                ctor = {dict: optree.treespec_dict, OrderedDict: optree.treespec_ordereddict,
+                      defaultdict: lambda m, **k: optree.treespec_defaultdict(tree.default_factory, m, **k)}[t]
+                shapes = [lambda: dict(pairs), lambda: OrderedDict(pairs), lambda: defaultdict(int, pairs),
+                          lambda: list(pairs), lambda: iter(pairs), lambda: _DictSub(pairs)]
+                if t is not OrderedDict:
+                    # sorted kinds: the order of the argument does not matter either
+                    # (only for key sets whose order does not depend on the insertion order: no keys tied under <)
+                    from props.C02 import ref_total_order
+                    ks_ = [k for k, _ in pairs]
+                    indep = [id(k) for k in ref_total_order(ks_)] == [id(k) for k in ref_total_order(list(reversed(ks_)))]
+                    if indep and not bool(optree._C.is_dict_insertion_ordered(ns)):
+                        shapes += [lambda: OrderedDict(reversed(pairs)), lambda: dict(reversed(pairs))]
+                for arg in shapes:
+                    variants.append(lambda arg=arg: ctor(arg(), **ckw))
+                if pairs and all(type(k) is str and k.isidentifier() for k, _ in pairs) and t is not OrderedDict:
+                    variants.append(lambda: ctor((), **dict(pairs), **ckw) if t is not defaultdict else optree.treespec_defaultdict(tree.default_factory, (), **dict(pairs), **ckw))
             if coll is not None:
                 variants.append(lambda: optree.treespec_from_collection(coll, **ckw))
                 for mk in variants:
                     r = outcome(mk)
-                    if r[0] != 'ok' or r[1] != spec or _paths(r[1]) != _paths(spec):
+                    if r[0] != 'ok' or r[1] != spec or _paths(r[1]) != _paths(spec) or r[1].kind != spec.kind \
+                            or r[1].type is not spec.type:
                         fails.append({'key': 'rebuild-constructor', 'what': 'constructor applied to the children does not give back an equal treespec with equal paths',
                                       'got': repr(r[1])[:300], 'want': repr(spec)[:300]})
                         break
